@@ -115,7 +115,8 @@ pub struct Op {
 
 impl Op {
     fn data(&self) -> Vec<u8> {
-        (0..self.len).map(|j| 0x80 | (self.tag.wrapping_mul(17).wrapping_add(j as u8) & 0x7f)).collect()
+        // (the high bits of the index are mixed in so that long buffers have no short period)
+        (0..self.len).map(|j| 0x80 | (self.tag.wrapping_mul(17).wrapping_add(j as u8).wrapping_add(((j >> 7) as u8).wrapping_mul(5)) & 0x7f)).collect()
     }
     fn to_json(&self) -> Value {
         json!({"route": format!("{:?}", self.route), "addr": self.addr, "len": self.len, "tag": self.tag})
@@ -722,7 +723,7 @@ mod xen_dev {
 pub fn run(tier: Tier, replay: Option<String>) -> i32 {
     let ctx = crate::new_ctx("C03", tier, "model_checking", &replay);
     let xen = cfg!(feature = "xen");
-    ctx.set_rule("E1: (a) depth 1 from a state in which every mapped byte carries a distinct label: every layout over U one-byte cells x bases {0, mid, top} (the mmap-backed map is built, rotating with the layout, by one constructor call, by inserting the regions one by one from the back, or together with extra regions that are removed again - a valid update may not be refused and the resulting map must behave the same) x every route (write, read, *_slice, *_obj of 1..16 bytes, the four stream forms with ample in-memory streams, store/load) x every start address in [base-1, base+U+1] x every length 1..=U+2; (b) BFS over all histories up to depth 3 of a reduced alphabet (all routes x ranges that overlap and straddle region boundaries and holes), state = complete memory contents, restored from the snapshot. Every transition runs on the real memory object; result class, counts, the complete guest memory (all regions, via host pointers), read buffers incl. untouched tail and (file-backed) the backing file are compared with a sparse byte-array model.");
+    ctx.set_rule("E1: (a) depth 1 from a state in which every mapped byte carries a distinct label: every layout over U one-byte cells x bases {0, mid, top} (the mmap-backed map is built, rotating with the layout, by one constructor call, by inserting the regions one by one from the back, or together with extra regions that are removed again - a valid update may not be refused and the resulting map must behave the same) x every route (write, read, *_slice, *_obj of 1..16 bytes, the four stream forms with ample in-memory streams, store/load) x every start address in [base-1, base+U+1] x every length 1..=U+2; (a') three regions of 70000 / 66000 / 131073 bytes (two adjacent, one after a hole): every route with transfers of 2^16-1 .. 140000 bytes in one call, inside one region, crossing regions and ending in the hole; (b) BFS over all histories up to depth 3 of a reduced alphabet (all routes x ranges that overlap and straddle region boundaries and holes), state = complete memory contents, restored from the snapshot. Every transition runs on the real memory object; result class, counts, the complete guest memory (all regions, via host pointers), read buffers incl. untouched tail and (file-backed) the backing file are compared with a sparse byte-array model.");
     ctx.assume("error variants other than InvalidGuestAddress and PartialBuffer{expected,completed} are compared by class only");
     if xen {
         ctx.assume("Xen build: the cell layouts use MmapXenFlags::UNIX mappings; grant regions (mapped in advance and on demand) are exercised on the emulated gntdev with page-sized regions");
@@ -830,6 +831,33 @@ pub fn run(tier: Tier, replay: Option<String>) -> i32 {
                             step(&ctx, anon, &m, &l, &st, &op, &[], None);
                             t += 1;
                         }
+                    }
+                }
+            }
+            ctx.add_transitions(t);
+            ctx.add_traces(t);
+            ctx.add_states(1);
+        }
+    }
+    // large regions and transfers (tens of KiB up to more than 128 KiB in one call, crossing
+    // regions, ending in a hole): sizes around 2^16 and 2^17
+    {
+        let (a, b, c) = (0x10000u64, 0x10000u64 + 70000, 0x80000u64);
+        let l = Layout { regs: vec![(a, 70000), (b, 66000), (c, 131073)] };
+        let st = Model::labelled(&l);
+        if let Some(m) = build_mmap_route_checked(&ctx, "C03", &l, 0) {
+            let mut t = 0u64;
+            let cases: Vec<(u64, usize)> = vec![
+                (a, 65535), (a, 65536), (a, 65537), (a, 70000), (a, 70001), (a, 136000), (a, 140000),
+                (a + 1, 65536), (a + 4464, 65536), (a + 4465, 65536), (b - 1, 2), (b, 65999), (b, 66000), (b + 463, 65537),
+                (c, 131072), (c, 131073), (c + 1, 131072), (c + 1, 131073), (c + 65536, 65537),
+            ];
+            for (ri, route) in ROUTES.iter().enumerate() {
+                for (addr, len) in &cases {
+                    if route.supports(*len) {
+                        let op = Op { route: *route, addr: *addr, len: *len, tag: ri as u8 + 3 };
+                        step(&ctx, anon, &m, &l, &st, &op, &[], None);
+                        t += 1;
                     }
                 }
             }
